@@ -20,7 +20,8 @@ Inductive event :=
 | AcnEvData (uni : N)                                   (* the universe's closure ran *)
 | EvPage (cid : list N) (page last : N) (unis : list N)    (* discovery page callback *)
 | EvRdm133 (seq endpoint : N) (data : list N)           (* RDMInflator under E133Inflator: generic RDM handler *)
-| EvLlrp (dest : list N) (tn : N) (data : list N).       (* RDMInflator under LLRPInflator: generic RDM handler *)
+| EvLlrp (dest : list N) (tn : N) (data : list N)
+| EvSrc (name : list N).   (* the E1.31 header's source name as handed to DMPE131Inflator::HandlePDUData / the discovery callback *)       (* RDMInflator under LLRPInflator: generic RDM handler *)
 (* m_handlers, and the callbacks run so far (in reverse order) *)
 Definition nstate := (list uh * list event)%type.
 
@@ -101,7 +102,12 @@ Definition merge_sources (h : uh) : uh * bool :=
   end.
 
 (* ---------------------------------------------------------------- headers *)
-Record e131h := mk_e131h { e_prio : N; e_seq : N; e_uni : N; e_preview : bool; e_term : bool; e_rev2 : bool }.
+Record e131h := mk_e131h { e_prio : N; e_seq : N; e_uni : N; e_preview : bool; e_term : bool; e_rev2 : bool;
+                            e_src : list N }.
+(* std::string(raw_header.source) after raw_header.source[LEN - 1] = 0: the bytes before the first NUL among the
+   first LEN - 1 *)
+Fixpoint cstr (k : nat) (l : list N) : list N :=
+  match k, l with S k', x :: r => if x =? 0 then [] else x :: cstr k' r | _, _ => [] end.
 
 (* DecodeAddress: (type == NON_RANGE ? 1 : 3) * DMPSizeToByteSize(TWO_BYTES) *)
 Definition DMP_ADDR_BYTES : N := 3 * 2.
@@ -136,7 +142,7 @@ Definition dmp_go (hs : list uh) (evs : list event) (h : uh) (cid : list N) (e :
       end.
 
 (* DMPE131Inflator::HandlePDUData(vector, headers, data = buffer + off, pdu_len = plen) *)
-Definition dmp_handle (ign : bool) (cid : list N) (e : e131h) (vector dmph off plen : N) (st : nstate)
+Definition dmp_handle0 (ign : bool) (cid : list N) (e : e131h) (vector dmph off plen : N) (st : nstate)
   : prog nstate :=
   let '(hs, evs) := st in
   if negb (vector =? DMP_SET_PROPERTY_VECTOR) then Ret st
@@ -163,6 +169,11 @@ Definition dmp_handle (ign : bool) (cid : list N) (e : e131h) (vector dmph off p
           else dmp_go hs evs h cid e doff remaining number None)
   end.
 
+(* the harness records headers.GetE131Header().Source() on entry of HandlePDUData *)
+Definition dmp_handle (ign : bool) (cid : list N) (e : e131h) (vector dmph off plen : N) (st : nstate)
+  : prog nstate :=
+  dmp_handle0 ign cid e vector dmph off plen (fst st, EvSrc (e_src e) :: snd st).
+
 (* sizeof(page_header): a struct local to E131DiscoveryInflator::InflatePDUBlock, pinned there by
    STATIC_ASSERT(sizeof(page_header) == 2); it cannot be named from outside the function *)
 Definition DISC_PAGE_HEADER : N := 2.
@@ -178,11 +189,11 @@ Fixpoint disc_loop (base plen o : N) (acc : list N) (fuel : nat) : prog (list N)
   | S k => if o + 2 <=? plen then rd16be (base + o) (fun u => disc_loop base plen (o + 2) (u :: acc) k)
            else Ret (rev acc)
   end.
-Definition disc_handle (cid : list N) (off plen : N) (st : nstate) : prog nstate :=
+Definition disc_handle (cid src : list N) (off plen : N) (st : nstate) : prog nstate :=
   if plen <? DISC_PAGE_HEADER then Ret st
   else Read off (fun page => Read (off + 1) (fun last =>
     bind (disc_loop off plen DISC_PAGE_HEADER [] (S (N.to_nat plen)))
-         (fun us => Ret (fst st, EvPage cid page last us :: snd st)))).
+         (fun us => Ret (fst st, EvPage cid page last us :: EvSrc src :: snd st)))).
 
 (* ---------------------------------------------------------------- BaseInflator, generic in the level *)
 Section Level.
@@ -354,18 +365,20 @@ Definition e131_dec_hdr (off : N) : prog e131h :=
     let opt := b E131_OFF_options in
     Ret (mk_e131h (b E131_OFF_priority) (b E131_OFF_sequence)
                   (256 * b E131_OFF_universe + b (E131_OFF_universe + 1))
-                  (negb (N.land opt E131_PREVIEW_MASK =? 0)) (negb (N.land opt E131_TERMINATED_MASK =? 0)) false)).
+                  (negb (N.land opt E131_PREVIEW_MASK =? 0)) (negb (N.land opt E131_TERMINATED_MASK =? 0)) false
+                  (cstr (N.to_nat (E131_SOURCE_NAME_LEN - 1)) (drop E131_OFF_source l)))).
 Definition rev2_dec_hdr (off : N) : prog e131h :=
   ReadBlk off REV2_HEADER_SIZE (fun l =>
     let b i := nth (N.to_nat i) l 0 in
     Ret (mk_e131h (b REV2_OFF_priority) (b REV2_OFF_sequence)
-                  (256 * b REV2_OFF_universe + b (REV2_OFF_universe + 1)) false false true)).
+                  (256 * b REV2_OFF_universe + b (REV2_OFF_universe + 1)) false false true
+                  (cstr (N.to_nat (REV2_SOURCE_NAME_LEN - 1)) (drop REV2_OFF_source l)))).
 
 (* E131Inflator children: DMPE131Inflator (VECTOR_E131_DATA), E131DiscoveryInflator; anything else ends in
    BaseInflator::HandlePDUData which only logs *)
 Definition e131_handle (ign : bool) (cid : list N) (vector : N) (e : e131h) (off l : N) (st : nstate) : prog nstate :=
   if vector =? VECTOR_E131_DATA then dmp_block ign cid e off l st
-  else if vector =? VECTOR_E131_DISCOVERY then disc_handle cid off l st
+  else if vector =? VECTOR_E131_DISCOVERY then disc_handle cid (e_src e) off l st
   else Ret st.
 Definition rev2_handle (ign : bool) (cid : list N) (vector : N) (e : e131h) (off l : N) (st : nstate) : prog nstate :=
   if vector =? VECTOR_E131_DATA then dmp_block ign cid e off l st else Ret st.
@@ -438,7 +451,7 @@ Proof.
     apply bounded_rd16be; [lia|]. intros u Hu. apply IH; lia.
 Qed.
 
-Lemma disc_handle_bounded n cid off l st : off + l <= n -> bounded n (disc_handle cid off l st).
+Lemma disc_handle_bounded n cid src off l st : off + l <= n -> bounded n (disc_handle cid src off l st).
 Proof.
   intros Hn. unfold disc_handle, DISC_PAGE_HEADER.
   destruct (l <? 2) eqn:E; [constructor|]. apply N.ltb_ge in E.
@@ -482,9 +495,9 @@ Proof.
     destruct (nth_error (u_srcs h1) i); apply dmp_finish_bounded.
 Qed.
 
-Lemma dmp_handle_bounded n ign cid e v h off l st : off + l <= n -> bounded n (dmp_handle ign cid e v h off l st).
+Lemma dmp_handle0_bounded n ign cid e v h off l st : off + l <= n -> bounded n (dmp_handle0 ign cid e v h off l st).
 Proof.
-  intros Hn. unfold dmp_handle. destruct st as [hs evs].
+  intros Hn. unfold dmp_handle0. destruct st as [hs evs].
   destruct (negb (v =? DMP_SET_PROPERTY_VECTOR)); [constructor|].
   destruct (e_preview e && ign); [constructor|].
   destruct (find_u hs (e_uni e)) as [uhd|]; [|constructor].
@@ -504,6 +517,9 @@ Proof.
     + (* start_code = -1 *)
       apply dmp_go_bounded; [lia|assumption|]. intros _ Hx. discriminate Hx.
 Qed.
+
+Lemma dmp_handle_bounded n ign cid e v h off l st : off + l <= n -> bounded n (dmp_handle ign cid e v h off l st).
+Proof. intros Hn. unfold dmp_handle. apply dmp_handle0_bounded. assumption. Qed.
 
 Lemma dmp_block_bounded n ign cid e off l st : off + l <= n -> bounded n (dmp_block ign cid e off l st).
 Proof.
